@@ -852,7 +852,8 @@ def parse_tag(text: str, parser: Optional[Parser]) -> Tuple[str, List[TagAttr]]:
                     quote_char = taken_n(1)  # " or '
 
                     # NOTE: Handle escaped quotes like \" or \', and continue until we reach the closing quote.
-                    value = take_until([quote_char], ignore=["\\" + quote_char])
+                    #         An escaped backslash (`\\`) does not escape the quote that follows it.
+                    value = take_until([quote_char], ignore=["\\\\", "\\" + quote_char])
 
                     if is_next_token([quote_char]):
                         add_token(quote_char)
